@@ -95,6 +95,16 @@ CHECKS = {
         'note': _NOTE + ' Boundary: a query exactly on the first/last node that went through a unit conversion may fall 1 ulp outside (0).',
         'technique': 'TLA+ spec (exact rational law) + TLC exhaustive; spec->code replay; trace validation',
     },
+    'C16': {
+        'text': 'Mono.tla is the implementation-shaped loop of convolve_model_dir_monochromatic: window -> index range by counting wavelengths below each bound on the reversed array, then chunks jmin..min(jmin+c-1, jhi) until jmin > jhi.  '
+                'TLC checks for every n_wav 2..5 (thorough 2..9), every chunk size 1..n_wav and every window with ends on or between wavelengths (single-wavelength, empty and unbounded windows included) that exactly the in-range wavelengths are '
+                'emitted (a bound equal to a wavelength left open), each once, independently of the chunk size, and that the loop terminates (liveness under weak fairness).  EVERY behaviour is replayed on real per-file packages '
+                '(1-5 models, 1-3 apertures, SEDs stored in either order, max_ram chosen to hit the chunk size): set of files, returned table, and every (model, aperture) cell, row order, FILTWAV and apertures of every file; and the nearest-wavelength '
+                'slice on real cube packages through Fitter with wavelength filters (on / between / midway / outside the tabulated wavelengths, memmap on/off).',
+        'ref': 'DESIGN.md section 6 C16',
+        'note': _NOTE + ' Chunk steps are internal (silent); only the call and its result are observed.',
+        'technique': 'TLA+ spec of the chunk loop + TLC (safety, action property, liveness) exhaustive; every behaviour replayed on real packages',
+    },
     'C18': {
         'text': 'filter_output is the Split action of FitSession: a verdict per record from the best chi^2 (chi=) or best chi^2 per fitted point (cpd=) against the threshold, under Select\'s abstract-float rules.  '
                 'Thresholds are generated tightly around every pool source\'s own criterion value.  Replay through the real function on file and list inputs (explicit and automatic output names): each source in exactly one '
